@@ -99,6 +99,24 @@ try:
 except ImportError:
     pass
 
+try:
+    import libhost_types  # C02: run-time descriptors of the emitted proto-plus classes + round trips
+    OPS.update(libhost_types.OPS)
+except ImportError:
+    pass
+
+try:
+    import libhost_c16  # C16: classes defined by the emitted types package, client surfaces
+    OPS.update(libhost_c16.OPS)
+except ImportError:
+    pass
+
+try:
+    import libhost_c18  # C18: sessions with caller-owned request objects that persist across calls
+    OPS.update(libhost_c18.OPS)
+except ImportError:
+    pass
+
 
 def main():
     ops = json.loads(sys.stdin.read())
